@@ -123,6 +123,9 @@ func c17Text(rng *core.RNG, kind string, n int) []uint16 {
 		case "bmp":
 			c := uint16(0x00A0 + rng.Intn(0xD000))
 			u = append(u, c)
+		case "hi00": // code points of the form U+xx00 (U+0100, U+3000, U+4E00 ...): the second byte of every unit is zero
+			hi := 1 + rng.Intn(0xD7)
+			u = append(u, uint16(hi)<<8)
 		case "bom": // starts with U+FEFF (a legal character of the string, not a byte order mark to strip)
 			if len(u) == 0 {
 				u = append(u, 0xFEFF)
